@@ -20,7 +20,15 @@ func (t TDist) CDF(x float64) float64 {
 	if x == 0 {
 		return 0.5
 	} else if x > 0 {
-		return 1 - 0.5*mathBetaInc(t.V/(t.V+x*x), t.V/2, 0.5)
+		x2 := x * x
+		if x2 < t.V {
+			// For small x, V/(V+x*x) rounds x*x away (entirely
+			// when x*x < V*2^-53), so use the complementary
+			// form I_{x²/(V+x²)}(1/2, V/2) = 1 - I_{V/(V+x²)}(V/2, 1/2),
+			// which keeps the full precision of x*x.
+			return 0.5 + 0.5*mathBetaInc(x2/(t.V+x2), 0.5, t.V/2)
+		}
+		return 1 - 0.5*mathBetaInc(t.V/(t.V+x2), t.V/2, 0.5)
 	} else if x < 0 {
 		return 1 - t.CDF(-x)
 	} else {
